@@ -5,7 +5,7 @@ from . import l2, l19
 
 def run(run, tier):
     hs = l19.harnesses(tier, run.seed)
-    ch.run_harnesses(run, "C19", hs, timeout=200 if tier == "quick" else 900)
+    ch.run_harnesses(run, "C19", hs, timeout=200 if tier == "quick" else 300)
     l2.describe(run, tier)
     run.bounds += [f"dependency graphs over n = 3{' and 4' if tier == 'thorough' else ''} named types in which every type is reachable from "
                    "the top record (one harness per edge set: diamonds and repeated use arise from the edge set); per edge the position "
